@@ -146,13 +146,111 @@ pub fn run(rep: &'static Report) {
     rep.eval(execs.load(Ordering::Relaxed));
     rep.extra("env_fault_executions", json!(execs.load(Ordering::Relaxed)));
     rep.extra("env_fault_inputs", json!(items.len()));
+    cli_level(rep);
     rep.add_distinct(rep.states.load(Ordering::Relaxed));
     rep.sample(json!({"graph":"key","state":"A with chunk 1 body bit flipped","expect":"exactly chunk 0 (2 bytes) written, after 198 source bytes were consumed; then Err"}));
     rep.sample(json!({"env":"key/authentic","tape":"write#1 -> accepts 1 of 2 bytes; write#2 -> Err(Other)","expect":"offered buffers are 'ab','b'; Err(IOWrite); nothing offered afterwards"}));
     rep.set_exhaustive(true);
 }
 
+/// CLI level: what reaches the plaintext destination (stdout or -o FILE) of `kestrel decrypt` / `password decrypt`
+/// for authentic and tampered multi-chunk files, sender known or unknown: exactly P on success, exactly the
+/// authenticated prefix (whole chunks) on failure, and nothing else.
+fn cli_level(rep: &Report) {
+    use crate::fx::Party;
+    use crate::proc::{self, Cmd, Scratch};
+    let seed = rep.seed;
+    const CS: usize = 65536;
+    let alice = Party::new(seed, "alice", "alicepw");
+    let bob = Party::new(seed, "bob", "bobpw");
+    let kr_known = crate::fx::keyring(&[(&alice, false), (&bob, true)]);
+    let kr_unknown = crate::fx::keyring(&[(&bob, true)]);
+    let p = plaintext(seed ^ 0x4c, 2 * CS + 300);
+    let f = r::write_key_file(&alice.sk, &bob.pk, &derive32(seed, "c04-cli-e"), &derive32(seed, "c04-cli-p"), &p, &[CS, CS, 300]).unwrap();
+    let salt = derive32(seed, "c04-cli-salt");
+    let q = r::write_pass_file_with_key(&r::pass_key(b"filepw", &salt), &salt, &p, &[CS, CS, 300]);
+    let variants = |file: &[u8], h: usize| -> Vec<(&'static str, Vec<u8>, Vec<Vec<u8>>)> {
+        // (name, bytes, acceptable released plaintexts)
+        let rec2 = h + 32 + CS;
+        let rec3 = rec2 + 32 + CS;
+        let flip = |at: usize| {
+            let mut v = file.to_vec();
+            v[at] ^= 1;
+            v
+        };
+        let mut tr = file.to_vec();
+        tr.push(0);
+        vec![
+            ("authentic", file.to_vec(), vec![p.clone()]),
+            ("corrupt-header", flip(h - 5), vec![vec![]]),
+            ("corrupt-chunk-1", flip(h + 100), vec![vec![]]),
+            ("corrupt-chunk-2", flip(rec2 + 100), vec![p[..CS].to_vec()]),
+            ("corrupt-chunk-3-tag", flip(file.len() - 1), vec![p[..2 * CS].to_vec()]),
+            ("truncated-in-chunk-3", file[..rec3 + 50].to_vec(), vec![p[..2 * CS].to_vec()]),
+            ("truncated-at-chunk-boundary", file[..rec3].to_vec(), vec![p[..2 * CS].to_vec()]),
+            ("trailing-byte", tr, vec![p[..2 * CS].to_vec(), p.clone()]),
+        ]
+    };
+    let mut jobs: Vec<(String, Vec<u8>, Vec<Vec<u8>>, Vec<String>, String, bool, bool)> = vec![];
+    for (vn, bytes, alts) in variants(&f, 132) {
+        for (kn, kr) in [("sender-known", &kr_known), ("sender-unknown", &kr_unknown)] {
+            for to_stdout in [false, true] {
+                jobs.push((format!("decrypt/{}/{}/{}", vn, kn, if to_stdout { "stdout" } else { "-o" }), bytes.clone(), alts.clone(), vec!["decrypt".into(), "in.ktl".into(), "-t".into(), "bob".into(), "-k".into(), "kr.txt".into(), "--env-pass".into()], kr.clone(), to_stdout, vn == "authentic"));
+            }
+        }
+    }
+    for (vn, bytes, alts) in variants(&q, 36) {
+        for to_stdout in [false, true] {
+            jobs.push((format!("pass-decrypt/{}/{}", vn, if to_stdout { "stdout" } else { "-o" }), bytes.clone(), alts.clone(), vec!["password".into(), "decrypt".into(), "in.ktl".into(), "--env-pass".into()], String::new(), to_stdout, vn == "authentic"));
+        }
+    }
+    jobs.par_iter().for_each(|(name, bytes, alts, args, kr, to_stdout, should_succeed)| {
+        rep.eval(1);
+        rep.nontrivial(format!("cli-{}", name).as_bytes());
+        let attempt = || -> Result<(), String> {
+            let sc = Scratch::new();
+            sc.write("in.ktl", bytes);
+            sc.write("kr.txt", kr.as_bytes());
+            let mut a: Vec<&str> = args.iter().map(|s| s.as_str()).collect();
+            if !to_stdout {
+                a.extend_from_slice(&["-o", "out.bin"]);
+            }
+            let pw = if args[0] == "decrypt" { "bobpw" } else { "filepw" };
+            let out = proc::run(&Cmd::new(&a).env("KESTREL_PASSWORD", pw), &sc.0);
+            out.well_behaved()?;
+            if out.ok() != *should_succeed {
+                return Err(format!("exit status {:?} for {}", out.code, name));
+            }
+            let released: Vec<u8> = if *to_stdout { out.stdout.clone() } else { sc.read("out.bin").unwrap_or_default() };
+            if !alts.iter().any(|x| *x == released) {
+                let is_prefix = p.starts_with(&released);
+                return Err(format!(
+                    "{}: {} bytes reached the plaintext destination ({}); expected exactly {} bytes of authenticated plaintext{}",
+                    name,
+                    released.len(),
+                    if *to_stdout { "stdout" } else { "-o file" },
+                    alts.iter().map(|x| x.len().to_string()).collect::<Vec<_>>().join(" or "),
+                    if is_prefix { " — a different prefix" } else { " — the bytes are NOT a prefix of the authentic plaintext" }
+                ));
+            }
+            Ok(())
+        };
+        if attempt().is_err() {
+            if let Err(e) = attempt() {
+                rep.violation(&format!("C04/cli/{}", name.split('/').take(2).collect::<Vec<_>>().join("/")), json!({"kind":"cli","name":name}), e);
+            }
+        }
+    });
+    rep.extra("cli_decrypt_cases", json!(jobs.len()));
+    rep.sample(json!({"kind":"cli","case":"decrypt/corrupt-chunk-2/sender-unknown/stdout","expect":"exit 1; stdout holds exactly the first 65536 plaintext bytes"}));
+}
+
 pub fn replay(rep: &'static Report, case: &Value) {
+    if case["kind"] == "cli" {
+        println!("  re-running the CLI-level part of C04");
+        cli_level(rep);
+        return;
+    }
     if !case["env_case"].is_null() {
         let c = Case::from_json(case).unwrap();
         let label = case["extra"]["label"].as_str().unwrap_or("replay").to_string();
